@@ -330,6 +330,48 @@ def run_shard(shard):
                 exp = R.decode16(v, dt)
                 if R.describe(d) != exp and not (type(d).__name__ == "UnknownGearCommand" and exp[1] == "UnknownGearCommand"):
                     probs.append(f"after user command classes were declared: frame {v:#06x} under device type {dt} decodes as {type(d).__name__}, reference {exp[1]}")
+            # an EVENT class the application declares for an instance type the library does not implement (the way the library
+            # declares LightEvent) - AFTER traffic of that type has already been decoded as the generic unknown event
+            from dali.device import general as dg
+            from dali.device.helpers import DeviceInstanceTypeMapper
+            early = dg.UnknownEvent(instance_type=2, short_address=5, data=0x155)
+            seen = from_frame(early.frame)
+            n += 1
+            if type(seen) is not dg.UnknownEvent or seen.frame != early.frame:
+                probs.append(f"event of the unimplemented instance type 2 {early!r} decodes as {seen!r}")
+
+            class PositionReport(dg._Event):
+                _instance_type = 2
+                _event_info = 0
+
+                @classmethod
+                def from_event_data(cls, event_data):
+                    return PositionReport
+
+                @property
+                def event_data(self):
+                    return self._event_info
+
+                def _set_event_data(self, set_data, set_frame):
+                    if not isinstance(set_data, int):
+                        raise ValueError("data must be an int")
+                    self._event_info = set_data
+                    set_frame[9:0] = set_data
+            m = DeviceInstanceTypeMapper()
+            m.add_type(short_address=5, instance_number=3, instance_type=2)
+            for kw in (dict(short_address=5, data=0x2AA), dict(short_address=5, instance_number=3, data=0x2AA), dict(device_group=7, data=1),
+                       dict(instance_number=3, data=1023), dict(instance_group=31, data=0)):
+                ev = PositionReport(**kw)
+                back = from_frame(ev.frame, dev_inst_map=m)
+                n += 1
+                if type(back) is not PositionReport or repr(back) != repr(ev) or back.frame != ev.frame:
+                    probs.append(f"user-declared event class for instance type 2 (declared after a type-2 frame had been decoded): {ev!r} decodes as {back!r}")
+            from dali.device import light
+            ev = light.LightEvent(short_address=5, data=77)
+            back = from_frame(ev.frame)
+            n += 1
+            if type(back) is not light.LightEvent or repr(back) != repr(ev):
+                probs.append(f"after a user event class was declared: library {ev!r} decodes as {back!r}")
             return n, probs
         from dali.frame import ForwardFrame as FFX
         out = _in_fork(child)
